@@ -22,10 +22,12 @@ THEOREMS = [
 RULE = ("trees of recursive scheduling (depth <=3) through a real CatchScheduler over TestScheduler/VirtualTimeScheduler/HistoricalScheduler: "
         "children scheduled via the scheduler handed to the action, via the closed-over inner scheduler or the outer CatchScheduler; an exception "
         "(or a negative sleep -> ArgumentOutOfRangeException) at every position with probability ~0.35; handler verdict per exception name; run by "
-        "start/advance_to; plus periodic actions through CatchScheduler.schedule_periodic raising at a chosen tick. Compared with the Lean model on "
+        "start/advance_to (re-armed with stop() after an escalation); the SAME exception instance raised by several actions with a stateful handler "
+        "(verdict per call position); periodic actions through CatchScheduler.schedule_periodic raising at a chosen tick, several jobs on one "
+        "CatchScheduler instance (one failing, one scheduled after the failure, interval()/timer(p,p)). Compared with the Lean model on "
         "handler-call log, per-call outcomes (which exception escapes), executed-action log and clocks. non-trivial = at least one action raised")
 ASSUMPTIONS = ["single-threaded use; inner scheduler is a virtual-time scheduler (C28/C29 model)",
-               "the handler itself does not raise and returns a bool"]
+               "the handler itself does not raise and returns a bool (it may be stateful: the model's verdict is a function of call position and exception)"]
 TRUSTED_EXTRA = ["static wrapped-ness computation in the oracle (props/C42.py: wrapped_map)"]
 
 
@@ -58,13 +60,50 @@ def gen_tree_case(rng):
     names = [f"e{i}" for i in range(1, g.next_id)] + ["ArgumentOutOfRangeException"]
     dflt = rng.random() < 0.3
     flip = [n for n in names if rng.random() < 0.5]
-    return {"op": "vts_script", "sched": kind, "clock": c0, "bump": 1000 if kind == "hist" else 1, "ops": ops,
+    case = {"op": "vts_script", "sched": kind, "clock": c0, "bump": 1000 if kind == "hist" else 1, "ops": ops,
             "handler_true": flip, "handler_default": dflt}
+    if rng.random() < 0.15:   # a stateful handler: verdicts by call position
+        case["handler_seq"] = [rng.choice([True, False, None]) for _ in range(rng.randrange(1, 4))]
+    return case
+
+
+def gen_shared_exc_case(rng):
+    """the SAME exception instance (names S1/S2: one object per name in the adapter) raised by several scheduled actions, with a
+    stateful handler (verdict per call position): the run is re-armed with stop() after each escalation, so a later action
+    raises an object the handler has already refused once — it must be asked again"""
+    kind = rng.choice(["test", "vts", "hist"])
+    unit = 500 if kind == "hist" else 1
+    c0 = 0
+    ops, nid = [], 1
+    n = rng.randrange(2, 6)
+    for i in range(n):
+        name = rng.choice(["S1", "S1", "S2"])
+        child = None
+        if rng.random() < 0.4:     # the shared object raised by a recursively scheduled action
+            child = {"id": nid + 1, "steps": [], "raise": name}
+            node = {"id": nid, "steps": [["sched", "handed", "rel", unit * rng.randrange(0, 3), child]], "raise": None}
+            nid += 2
+        else:
+            node = {"id": nid, "steps": [], "raise": name if rng.random() < 0.85 else None}
+            nid += 1
+        ops.append(["sched", True, "abs", c0 + unit * (i * 3 + rng.randrange(0, 3)), node])
+    for _ in range(n + 1):
+        ops.append(["start"])
+        ops.append(["stop"])
+    seq = [rng.choice([False, False, True, None]) for _ in range(rng.randrange(1, n + 2))]
+    if rng.random() < 0.5:
+        seq[0] = False
+    return {"op": "vts_script", "sched": kind, "clock": c0, "bump": 1000 if kind == "hist" else 1, "ops": ops,
+            "handler_true": [x for x in ("S1", "S2") if rng.random() < 0.5], "handler_default": False, "handler_seq": seq}
 
 
 def cases(rng, tier):
     for _ in range(fw.tier_scale(tier, 1500, 15000)):
         yield gen_tree_case(rng)
+    for _ in range(fw.tier_scale(tier, 400, 4000)):
+        yield gen_shared_exc_case(rng)
+    for _ in range(fw.tier_scale(tier, 300, 3000)):
+        yield vc.gen_catch_siblings(rng)
     for _ in range(fw.tier_scale(tier, 700, 7000)):
         c = vc.gen_periodic(rng, catch_p=0.8, raise_p=0.6)
         if rng.random() < 0.3:
@@ -84,7 +123,11 @@ canon_impl = vc.canon_impl
 canon_model = vc.canon_model
 
 
-def verdict(case, name):
+def verdict(case, name, k=None):
+    """what the handler returns for its k-th call (k counted from 0) with exception `name`"""
+    seq = case.get("handler_seq", [])
+    if k is not None and k < len(seq) and seq[k] is not None:
+        return bool(seq[k])
     d = bool(case.get("handler_default", False))
     return (not d) if name in case.get("handler_true", []) else d
 
@@ -126,7 +169,7 @@ def oracle(case, out):
             _, nid, name = ev
             if wm.get(nid):
                 expected_h.append(name)
-                if not verdict(case, name):
+                if not verdict(case, name, len(expected_h) - 1):
                     escaped, after_escape = name, True
             else:
                 escaped, after_escape = name, True
@@ -182,7 +225,8 @@ def per_oracle(case, out):
             escaped = None
     if out["hlog"] != expected_h:
         return f"handler calls {out['hlog']} != exceptions of periodic actions scheduled through the CatchScheduler {expected_h}"
-    return None
+    # a job that does not raise behaves exactly as on the wrapped scheduler: it keeps ticking whatever its siblings do
+    return vc.periodic_property_oracle(case, out)
 
 
 def nontrivial(case, out):
